@@ -48,8 +48,9 @@ func ParseAndValidateServerName(serverName ServerName) (host string, port int, v
 	}
 
 	// try parsing as an IPv4 address
+	// (an IPv4-mapped IPv6 address also has a 4-byte form, but IPv6 literals must be bracketed)
 	ip := net.ParseIP(host)
-	if ip != nil && ip.To4() != nil {
+	if ip != nil && ip.To4() != nil && !strings.Contains(host, ":") {
 		valid = true
 		return
 	}
